@@ -96,6 +96,8 @@ inductive Action where
   | clean (b : Nat)                    -- BlocksCleaner deletes one block marked long enough ago
   | sync (g : Nat)                     -- store gateway `g` syncs
   | tick (d : Nat)                     -- time passes
+  | failedUpload                       -- a compaction whose result never became visible (upload failed before
+                                       -- meta.json): a ULID is used up, the bucket shows no new block
 deriving Repr
 
 def findBlk (blocks : List Blk) (i : Nat) : Option Blk := blocks.find? (fun b => b.id == i)
@@ -159,6 +161,7 @@ def step (P : Params) (s : State) : Action → Option State
     else none
   | .tick d =>
     if s.gws.all (gwOk P (s.now + d)) then some { s with now := s.now + d } else none
+  | .failedUpload => some { s with nextId := s.nextId + 1 }
 
 def run (P : Params) : State → List Action → Option State
   | s, [] => some s
